@@ -34,7 +34,9 @@ def gen(rng, tier):
         inp["at"] = rng.choice([None, 0, 0, 0.05, 0.1])
         inp["by"] = rng.randrange(3)
         inp["lib"] = rng.random() < 0.2
-    spec = {"ins": ins, "fn_raises": rng.random() < 0.15, "settle": 5.0}
+    # discard: fire-and-forget use - the caller does not keep the returned future; the function must
+    # still be called once all inputs have resolved
+    spec = {"ins": ins, "fn_raises": rng.random() < 0.15, "settle": 5.0, "discard": rng.random() < 0.2}
     spec["sim"] = runner.draw_sim_cfg(rng, est=500)
     spec["sim"]["horizon_s"] = 5000
     return spec
@@ -93,6 +95,10 @@ def run(spec, env):
         env.rec("build-raised", type(e).__name__, str(e)[:60])
         return
     env.rec("built")
+    if spec.get("discard"):
+        out = None
+        import gc
+        gc.collect()
 
     def completer(k):
         def body():
@@ -110,7 +116,7 @@ def run(spec, env):
         env.client(completer(k), "client-c%d" % k)
     env.join_all()
     env.sleep(spec["settle"])
-    st = fut_state(out)
+    st = fut_state(out) if out is not None else ("discarded",)
     env.objs["final"] = st
     env.rec("final", [st[0]])
 
@@ -144,6 +150,11 @@ def check(spec, env):
             if late:
                 out.append({"oracle": "fn-early", "sig": "fn-before-inputs", "msg": "the function was called (event %d) before inputs %r had begun to complete" % (e[0], late)})
             break
+    if st[0] == "discarded":
+        if not failing and len(calls) != 1:
+            out.append({"oracle": "fn-once", "sig": "fn-called-%d-times|output-discarded" % len(calls),
+                        "msg": "the caller dropped the future returned by f_apply; all inputs then succeeded but the function was called %d times (%s)" % (len(calls), shape)})
+        return out
     if st[0] == "pending":
         out.append({"oracle": "pending", "sig": "pending|%s" % ("failing-input" if failing else "all-ok"),
                     "msg": "f_apply output still pending although every input finished (%s, failing inputs %r)" % (shape, failing)})
